@@ -29,8 +29,9 @@ structure Ann where
   h : Nat
   /-- memory pointer relative to its value at function entry -/
   off : Nat
-  /-- handlers installed by this activation, innermost first: (catch label, height at `setTry`) -/
-  hs : List (Nat × Nat)
+  /-- handlers installed by this activation, innermost first:
+  (catch label, height at `setTry`, memory-pointer offset at `setTry`) -/
+  hs : List (Nat × Nat × Nat)
   deriving DecidableEq, Repr, Inhabited
 
 structure FnAnn where
@@ -119,7 +120,8 @@ def succs (sig : String → Option (Nat × Nat)) (name : String) (c : FnCode) (r
   | .ret => if a.h = results ∧ a.off = 0 ∧ a.hs = [] then some (0, []) else none
   | .setTry fn l =>
     if fn = name then
-      some (0, [(ip + 1, { a with hs := (l, a.h) :: a.hs }), (l, { a with h := a.h + 1, hs := (l, a.h) :: a.hs })])
+      some (0, [(ip + 1, { a with hs := (l, a.h, a.off) :: a.hs }),
+        (l, { a with h := a.h + 1, hs := (l, a.h, a.off) :: a.hs })])
     else none
   | .popTry =>
     match a.hs with
@@ -134,13 +136,14 @@ def succs (sig : String → Option (Nat × Nat)) (name : String) (c : FnCode) (r
     | none => none
 
 /-- The innermost handler of the activation is entered with the height recorded at its `setTry`
-plus one (the error object), the same offset and the same handler list (the VM does not pop the
-handler; the catch block does), and the instruction never takes the stack below that height. -/
+plus one (the error object), the offset recorded there (the VM unwinds the operand stack and
+restores the memory pointer) and the same handler list (the VM does not pop the handler; the
+catch block does); and the instruction never takes the stack below the recorded height. -/
 def handlerOK (pts : List (Option Ann)) (a : Ann) (pops : Nat) : Bool :=
   match a.hs with
   | [] => true
-  | (l, H) :: _ =>
-    decide (pts[l]? = some (some { h := H + 1, off := a.off, hs := a.hs })) && decide (H + pops ≤ a.h)
+  | (l, H, o) :: _ =>
+    decide (pts[l]? = some (some { h := H + 1, off := o, hs := a.hs })) && decide (H + pops ≤ a.h)
 
 /-- Instructions that take their argument count from the operand stack. -/
 def usesArgc : RInstr → Bool
@@ -248,7 +251,7 @@ def inferGo (sig : String → Option (Nat × Nat)) (name : String) (c : Array (R
         let hOK (pops : Nat) : Bool :=
           match a.hs with
           | [] => true
-          | (_, H) :: _ => decide (H + pops ≤ a.h)
+          | (_, H, _) :: _ => decide (H + pops ≤ a.h)
         let continueWith (st : InfState) (r : Nat) (results : Nat) : Option InfState × Nat :=
           match succs sig name cl results r ip a i with
           | some (pops, l) =>
